@@ -357,6 +357,11 @@ OUTSIDE_MODEL = {
     "C12q": "fundamental paths moved into numpy arrays behind a `prices` property: the rules follow the stored dictionary of lists only (FC12q is the correct migration)",
     "C14q": "session start times read from a table that is filled with the previous session's length: a running table is refused (FC14q fills it with the running sum, same shape)",
     "C16q": "halt start and halt count turned into properties over a list of halt times: computed state is refused (FC16q reads the last element instead of the first, same shape)",
+    "C04t": "early exit of the expiry sweep decided from a cached `next expiry` kept beside the index: a reaper decision that reads other state than the index and the clock needs an invariant over every writer of the index, which is not established",
+    "C09t": "order / cancel / matching blocks of both phases pulled into one helper with an early return for cancels: the two-phase block structure C09.R2 decides is gone (the helper form is not modelled)",
+    "C15t": "time-0 reference price memoised per market on the rule at first use: whether a table entry still equals the market's price at time 0 is not decided (the entry goes stale while step 0 is still trading)",
+    "C16t": "time-0 reference price memoised per market on the rule at the first fill: same refusal as C15t",
+    "C20t": "index value memoised per time step on the index market: whether a stored value is still the weighted average of what the components show now is not decided",
     "C09q": "duplicate hooks detected through sets keyed by (hook point, time, event id): a duplicate test against another collection than event_hooks is refused (FC09q keys the set by the hook itself)",
 }
 
